@@ -87,17 +87,59 @@ TRUE = const(BOOL, True)
 FALSE = const(BOOL, False)
 
 
-def subterms(bp, acc=None, seen=None):
-    """All sub-blueprints (post-order, distinct by value)."""
-    if acc is None:
-        acc, seen = [], set()
-    if bp in seen:
-        return acc
-    seen.add(bp)
-    for c in bp[2]:
-        subterms(c, acc, seen)
-    acc.append(bp)
+def subterms(bp):
+    """All sub-blueprints, post-order, distinct by object identity (O(DAG), safe on heavily
+    shared DAGs); equal-valued duplicates are removed afterwards only when that is cheap."""
+    acc, seen = [], set()
+    stack = [(bp, False)]
+    while stack:
+        t, done = stack.pop()
+        if done:
+            acc.append(t)
+            continue
+        if id(t) in seen:
+            continue
+        seen.add(id(t))
+        stack.append((t, True))
+        for c in reversed(t[2]):
+            if id(c) not in seen:
+                stack.append((c, False))
+    if len(acc) <= 400:
+        # small terms (generated inputs): also merge equal-valued copies
+        out, vs = [], set()
+        for t in acc:
+            h = _dag_digest(t)
+            if h not in vs:
+                vs.add(h)
+                out.append(t)
+        return out
     return acc
+
+
+_DIG = {}
+
+
+def _dag_digest(bp):
+    """Structural digest computed bottom-up with an identity memo (never expands the tree)."""
+    memo = {}
+    stack = [(bp, False)]
+    while stack:
+        t, done = stack.pop()
+        if id(t) in memo:
+            continue
+        if not done:
+            stack.append((t, True))
+            for c in t[2]:
+                if id(c) not in memo:
+                    stack.append((c, False))
+        else:
+            h = hashlib.sha1(repr((t[0], _jparams(t[1]), tuple(memo[id(c)] for c in t[2]))).encode()).hexdigest()[:20]
+            memo[id(t)] = h
+    return memo[id(bp)]
+
+
+def _jparams(p):
+    return repr(p)
 
 
 def size(bp):
@@ -174,14 +216,31 @@ def from_json(j):
     return j
 
 
+def _is_bp(x):
+    return isinstance(x, tuple) and len(x) == 3 and isinstance(x[0], str) and isinstance(x[1], tuple) \
+        and isinstance(x[2], tuple) and x[0].isupper()
+
+
+def _hashable_view(x):
+    if _is_bp(x):
+        return ("$bp", _dag_digest(x))
+    if isinstance(x, (tuple, list)):
+        return tuple(_hashable_view(e) for e in x)
+    if isinstance(x, dict):
+        return tuple(sorted(((repr(k), _hashable_view(v)) for k, v in x.items())))
+    return repr(x)
+
+
 def bphash(x):
-    return hashlib.sha1(json.dumps(to_json(x), sort_keys=True).encode()).hexdigest()[:16]
+    return hashlib.sha1(repr(_hashable_view(x)).encode()).hexdigest()[:16]
 
 
 # ---------------------------------------------------------------- pretty
 
 def show(bp, maxlen=400):
-    s = _show(bp)
+    out = []
+    _show(bp, out, [maxlen])
+    s = "".join(out)
     if len(s) > maxlen:
         s = s[:maxlen] + "..."
     return s
@@ -197,17 +256,41 @@ def _showv(ty, v):
     return repr(v)
 
 
-def _show(bp):
+def _show(bp, out, budget):
+    """Append the rendering of bp to out; stops descending once the character budget is spent."""
+    if budget[0] <= 0:
+        return
+
+    def emit(x):
+        out.append(x)
+        budget[0] -= len(x)
+
+    def args(ch):
+        for i, c in enumerate(ch):
+            if budget[0] <= 0:
+                return
+            if i:
+                emit(", ")
+            _show(c, out, budget)
     op, params, ch = bp
     if op == "SYMBOL":
-        return "%s:%s" % (params[0], tystr(params[1]))
-    if op == "CONST":
-        return _showv(*params)
-    if op == "FUNCTION":
-        return "%s(%s)" % (params[0], ", ".join(_show(c) for c in ch))
-    if op in ("FORALL", "EXISTS"):
-        return "%s[%s].(%s)" % (op.lower(), ",".join("%s:%s" % (n, tystr(t)) for n, t in params), _show(ch[0]))
-    if op == "ARRAY_VALUE":
-        return "Array{%s}(%s)" % (tystr(params[0]), ", ".join(_show(c) for c in ch))
-    p = ("[%s]" % ",".join(str(x) for x in params)) if params else ""
-    return "%s%s(%s)" % (op, p, ", ".join(_show(c) for c in ch))
+        emit("%s:%s" % (params[0], tystr(params[1])))
+    elif op == "CONST":
+        emit(_showv(*params))
+    elif op == "FUNCTION":
+        emit("%s(" % params[0])
+        args(ch)
+        emit(")")
+    elif op in ("FORALL", "EXISTS"):
+        emit("%s[%s].(" % (op.lower(), ",".join("%s:%s" % (n, tystr(t)) for n, t in params)))
+        args(ch)
+        emit(")")
+    elif op == "ARRAY_VALUE":
+        emit("Array{%s}(" % tystr(params[0]))
+        args(ch)
+        emit(")")
+    else:
+        p = ("[%s]" % ",".join(str(x) for x in params)) if params else ""
+        emit("%s%s(" % (op, p))
+        args(ch)
+        emit(")")
